@@ -122,10 +122,15 @@ theorem run_error_kind_with_bodies (r : Reads Aw.Group.Data) (hr : AwProofs.Pipe
     IsQueryErr e :=
   run_error_kind _ (AwProofs.PipelineErrors.fullApply_applyQ r S E other hr ho) env text e h
 
-/-- the hypothesis on the reads holds of the sqlite and memory store models in every state -/
-theorem reads_of_listed_buckets_succeed (s : Aw.Store.Sqlite.St Aw.Group.Data) (m : Aw.Store.Memory.St Aw.Group.Data) :
-    AwProofs.PipelineErrors.ReadsTotal (Reads.ofSqlite s) ∧ AwProofs.PipelineErrors.ReadsTotal (Reads.ofMemory m) :=
-  ⟨AwProofs.PipelineErrors.readsTotal_ofSqlite s, AwProofs.PipelineErrors.readsTotal_ofMemory m⟩
+/-- the hypothesis on the reads holds of the sqlite and memory store models in every state, and of the peewee model
+    in every state that satisfies its invariant with a coherent key cache (every reachable one: C05) -/
+theorem reads_of_listed_buckets_succeed (s : Aw.Store.Sqlite.St Aw.Group.Data) (m : Aw.Store.Memory.St Aw.Group.Data)
+    (p : Aw.Store.Peewee.St Aw.Group.Data) (hi : Aw.Store.Peewee.Inv p) (hc : Aw.Store.Peewee.CacheOk p)
+    (dec : Aw.Ev Aw.Group.Data → Aw.Ev Aw.Group.Data) :
+    AwProofs.PipelineErrors.ReadsTotal (Reads.ofSqlite s) ∧ AwProofs.PipelineErrors.ReadsTotal (Reads.ofMemory m) ∧
+      AwProofs.PipelineErrors.ReadsTotal (Reads.ofPeewee p dec) :=
+  ⟨AwProofs.PipelineErrors.readsTotal_ofSqlite s, AwProofs.PipelineErrors.readsTotal_ofMemory m,
+    AwProofs.PipelineErrors.readsTotal_ofPeewee p hi hc dec⟩
 
 /-- a passing type check is exactly the absence of a mismatching position -/
 theorem typecheck_ok_iff (ps : List Param) (as : List Val) :
